@@ -14,7 +14,9 @@ def grid_float(draw, kmax=64, mmax=3):
 
 
 def any_float(lo=-100.0, hi=100.0):
-    return st.floats(lo, hi, allow_nan=False, allow_infinity=False, width=64)
+    """non-dyadic floats k*1e-6 in [lo,hi]: never sub-normal or so tiny that squares
+    underflow (Gram-form formulas have forward error O(eps*|x|^2), see DESIGN 1.4)"""
+    return st.integers(int(lo * 10 ** 6), int(hi * 10 ** 6)).map(lambda k: k / 1e6)
 
 
 @st.composite
